@@ -66,9 +66,51 @@ pub struct World {
     /// root first, then the children in order
     pub dies: Vec<DieExp>,
     pub notes: Vec<String>,
+    /// what the assembler placed (self-check of the model decoder)
+    pub rng_lists: Vec<g::PlacedList>,
+    pub loc_lists: Vec<g::PlacedList>,
+    /// set when a section was damaged after generation
+    pub mutated: Option<String>,
 }
 
 impl World {
+    /// Replace the bytes of one of the three sections the lists depend on
+    /// (0 = ranges, 1 = locations, 2 = .debug_addr), in the file where it lives.
+    pub fn replace_section(&mut self, which: u8, bytes: Vec<u8>) {
+        let v5 = self.enc.version >= 5;
+        let split = matches!(self.mode, Mode::Split { .. });
+        match which {
+            0 => {
+                self.eff_rng = bytes.clone();
+                if v5 {
+                    if split { self.dwo.as_mut().unwrap() } else { &mut self.main }.set(SectionId::DebugRngLists, bytes);
+                } else {
+                    self.main.set(SectionId::DebugRanges, bytes);
+                }
+            }
+            1 => {
+                self.eff_loc = bytes.clone();
+                let id = if v5 { SectionId::DebugLocLists } else { SectionId::DebugLoc };
+                if split { self.dwo.as_mut().unwrap() } else { &mut self.main }.set(id, bytes);
+            }
+            _ => {
+                self.eff_addr = bytes.clone();
+                self.main.set(SectionId::DebugAddr, bytes);
+            }
+        }
+    }
+    /// The model decoder must reproduce what the assembler placed.
+    pub fn self_check(&self) -> Result<(), String> {
+        for (sec, flavor, lists) in [(&self.eff_rng, self.rng_flavor, &self.rng_lists), (&self.eff_loc, self.loc_flavor, &self.loc_lists)] {
+            for pl in lists.iter() {
+                match m::decode(sec, pl.off, flavor, self.enc.le, self.enc.addr) {
+                    Some(d) if d.items == pl.items && d.end == m::End::EndOfList => {}
+                    other => return Err(format!("model decode of {flavor:?} list at {} disagrees with the assembler: {other:?} vs {:?}", pl.off, pl.items)),
+                }
+            }
+        }
+        Ok(())
+    }
     pub fn is_dwo(&self) -> bool {
         self.mode != Mode::Main
     }
@@ -81,6 +123,7 @@ impl World {
             "expected_fields": format!("{:?}", self.fields),
             "dies": self.dies.iter().map(|d| format!("{:?} ranges={:?} loc={:?}", d.sem, d.ranges, d.loc)).collect::<Vec<_>>(),
             "notes": self.notes,
+            "mutated": self.mutated,
         })
     }
     pub fn digest_bytes(&self) -> Vec<u8> {
@@ -477,13 +520,16 @@ pub fn build_world(r: &mut Rng, enc: Enc, k: &Knobs) -> World {
         main,
         dwo: dwo_secs,
         eff_addr: at.bytes,
-        eff_rng: rsec.bytes,
+        eff_rng: rsec.bytes.clone(),
         rng_flavor,
-        eff_loc: lsec.bytes,
+        eff_loc: lsec.bytes.clone(),
         loc_flavor,
         fields,
         dies,
         notes,
+        rng_lists: rsec.lists,
+        loc_lists: lsec.lists,
+        mutated: None,
     }
 }
 
@@ -509,6 +555,8 @@ pub struct DieObs {
     pub attr_locations_ref: Option<Result<Option<Seq<m::Res>>, String>>,
     pub locations: Option<Seq<m::Res>>,
     pub raw_locations: Option<Seq<Item>>,
+    pub locations_ref: Option<Seq<m::Res>>,
+    pub raw_locations_ref: Option<Seq<Item>>,
     pub loc_index_offset: Option<Result<u64, String>>,
     pub loc_form_other: bool,
 }
@@ -689,6 +737,11 @@ pub fn run_world(w: &World) -> WorldObs {
                     let off = gimli::LocationListsOffset(*off as usize);
                     o.locations = Some(seq_loc(limit, dwarf.locations(&unit, off)));
                     o.raw_locations = Some(match dwarf.raw_locations(&unit, off) {
+                        Ok(mut it) => drain(limit, || it.next().map(|x| x.map(raw_loc_item))),
+                        Err(e) => Seq::open_err(e),
+                    });
+                    o.locations_ref = Some(seq_loc(limit, uref.locations(off)));
+                    o.raw_locations_ref = Some(match uref.raw_locations(off) {
                         Ok(mut it) => drain(limit, || it.next().map(|x| x.map(raw_loc_item))),
                         Err(e) => Seq::open_err(e),
                     });
@@ -912,12 +965,15 @@ pub fn judge_world(ctx: &mut Ctx, tag: &str, w: &World, obs: &WorldObs, input: &
                         judge_opt_seq(ctx, &format!("{tag}.attr_locations"), &le, &unwrap(&dobs.attr_locations), input);
                         judge_opt_seq(ctx, &format!("{tag}.UnitRef.attr_locations"), &le, &unwrap(&dobs.attr_locations_ref), input);
                         judge_opt_seq(ctx, &format!("{tag}.Dwarf.locations"), &le, &dobs.locations, input);
-                        match &dobs.raw_locations {
-                            Some(s) => {
-                                ctx.obs("raw.compared");
-                                judge(ctx, &format!("{tag}.Dwarf.raw_locations"), &le.raw, le.raw_tail, s, input);
+                        judge_opt_seq(ctx, &format!("{tag}.UnitRef.locations"), &le, &dobs.locations_ref, input);
+                        for (nm, got) in [("Dwarf.raw_locations", &dobs.raw_locations), ("UnitRef.raw_locations", &dobs.raw_locations_ref)] {
+                            match got {
+                                Some(s) => {
+                                    ctx.obs("raw.compared");
+                                    judge(ctx, &format!("{tag}.{nm}"), &le.raw, le.raw_tail, s, input);
+                                }
+                                None => ctx.fail(&format!("{tag}.{nm}.missing"), "raw_locations not observed", input),
                             }
-                            None => ctx.fail(&format!("{tag}.Dwarf.raw_locations.missing"), "raw_locations not observed", input),
                         }
                     }
                 }
@@ -988,6 +1044,10 @@ pub fn stream_die(ctx: &mut Ctx) {
                     long_lists: false,
                 };
                 let w = build_world(&mut r, enc, &k);
+                if let Err(e) = w.self_check() {
+                    ctx.harness_error(&format!("die {idx}: {e}"));
+                    continue;
+                }
                 obs_enc(ctx, enc);
                 ctx.obs(&format!("die.low.{low}"));
                 ctx.obs(&format!("die.high.{high}"));
@@ -1043,10 +1103,28 @@ pub fn stream_unit(ctx: &mut Ctx) {
             explicit_bases: r.chance(1, 3),
             long_lists: r.chance(1, 4),
         };
-        let w = build_world(&mut r, enc, &k);
+        let mut w = build_world(&mut r, enc, &k);
         obs_world(ctx, &w, &k);
-        let input = || w.json();
         // self-check: every generated list decodes (model) from the effective sections
+        if let Err(e) = w.self_check() {
+            ctx.harness_error(&format!("unit {i}: {e}"));
+            continue;
+        }
+        if r.chance(1, 5) {
+            // damage one of the sections the lists depend on; the model reads the same bytes
+            let which = r.below(3) as u8;
+            let bytes = match which {
+                0 => w.eff_rng.clone(),
+                1 => w.eff_loc.clone(),
+                _ => w.eff_addr.clone(),
+            };
+            let c = crate::gen::mutate::count(bytes.len());
+            let (mutated, how) = crate::gen::mutate::nth(&bytes, r.below(c));
+            w.replace_section(which, mutated);
+            w.mutated = Some(format!("section {which}: {how}"));
+            ctx.obs("unit.mutated_section");
+        }
+        let input = || w.json();
         let Some(obs) = ctx.guard("unit", &input, || run_world(&w)) else { continue };
         judge_world(ctx, "unit", &w, &obs, &input);
         ctx.nontrivial_bytes("unit", &w.digest_bytes());
